@@ -1,7 +1,7 @@
 use crate::codegen::CodegenContext;
 use crate::errors::CoreResult;
 use crate::parser::code_map::Span;
-use crate::parser::{Expression, Located, Token};
+use crate::parser::{Expression, Identifier, Located, Token};
 use codespan_reporting::diagnostic::Diagnostic;
 
 pub struct ConfigExtractor<'a> {
@@ -41,6 +41,40 @@ impl<'a> ConfigExtractor<'a> {
             Some(expr) => ctx.evaluate_expression_as_string(&expr, true),
             None => Ok(None),
         }
+    }
+
+    /// Gets a string that is going to be used as an identifier (e.g. the name of a segment or a bank)
+    pub fn get_identifier(&self, ctx: &mut CodegenContext, key: &str) -> CoreResult<Identifier> {
+        let id = self.get_string(ctx, key)?;
+        self.to_identifier(key, id)
+    }
+
+    pub fn try_get_identifier(
+        &self,
+        ctx: &mut CodegenContext,
+        key: &str,
+    ) -> CoreResult<Option<Identifier>> {
+        match self.try_get_string(ctx, key)? {
+            Some(id) => Ok(Some(self.to_identifier(key, id)?)),
+            None => Ok(None),
+        }
+    }
+
+    fn to_identifier(&self, key: &str, id: String) -> CoreResult<Identifier> {
+        if id.is_empty() || id.contains('.') {
+            let span = self
+                .try_get_kvp(key)
+                .map(|(k, v)| k.span.merge(v.span))
+                .unwrap_or(self.config_span);
+            return Err(Diagnostic::error()
+                .with_message(format!(
+                    "configuration key '{}' should be a valid identifier, but is: \"{}\"",
+                    key, id
+                ))
+                .with_labels(vec![span.to_label()])
+                .into());
+        }
+        Ok(Identifier::new(id))
     }
 
     pub fn try_get_i64(&self, ctx: &mut CodegenContext, key: &str) -> CoreResult<Option<i64>> {
